@@ -83,3 +83,18 @@ package conversion
 //@   ensures forall(k, 0, len(b)/8, result[k] == le64at(b, k*8))
 //@   loop 1 invariant rangeindex >= -1 && rangeindex < len(edges) && len(edges) == len(b)/8
 //@   loop 1 invariant forall(k, 0, rangeindex+1, edges[k] == le64at(b, k*8))
+
+// Float32ToBytes / BytesToFloat32 are function variables holding either the portable
+// implementation (verified above) or, on little-endian machines, the reinterpreting one that
+// uses unsafe (outside the verifier's subset). Assumed for whatever they hold: no effect on
+// modelled state, a fresh result of the stated length.
+//@ func Float32ToBytes
+//@   trusted
+//@   pure
+//@   allocates
+//@   ensures len(result) == len(p0)*4
+//@ func BytesToFloat32
+//@   trusted
+//@   pure
+//@   allocates
+//@   ensures len(result) == len(p0)/4
